@@ -447,9 +447,10 @@ def check_collapse(prop: str, res: Result, repo: Repo, want=("R-INTERVAL", "R-CO
             elif isinstance(n, (ast.Assign, ast.AugAssign)) and any(ast.unparse(t) == "self.candles" for t in (n.targets if isinstance(n, ast.Assign) else [n.target])):
                 touched.append((n, "self.candles = ..."))
         EXT = f"extend({ACC})"
-        allowed = {"pop(0)", EXT}
+        FILLED = f"extend(self.fill_missing_candles({ACC}, {TFN}))"
+        allowed = {"pop(0)", EXT, FILLED}
         bad = [(n, t) for n, t in touched if t not in allowed]
-        if not bad and sum(1 for _, t in touched if t == "pop(0)") == 2 and sum(1 for _, t in touched if t == EXT) == 1:
+        if not bad and sum(1 for _, t in touched if t == "pop(0)") == 2 and sum(1 for _, t in touched if t in (EXT, FILLED)) in (1, 2) and sum(1 for _, t in touched if t == EXT) >= 1:
             res.ok("R-CONSERVE", {"site": cc.where, "why": "self.candles is consumed candle by candle (pop(0) for the first candle and in the loop `while self.candles`) and refilled once with the rebuilt list"}, nontrivial="collapse:walkall")
         else:
             for n, t in bad[:3]:
@@ -464,7 +465,7 @@ def check_collapse(prop: str, res: Result, repo: Repo, want=("R-INTERVAL", "R-CO
         for p in stmt_paths(post):
             calls = [call_target(c) for c in path_calls(p)]
             if "R-CONSERVE" in want:
-                if calls and calls[-1] == "self.candles.extend" and ast.unparse(path_calls(p)[-1].args[0]) == ACC:
+                if calls and calls[-1] == "self.candles.extend" and ast.unparse(path_calls(p)[-1].args[0]) in (ACC, f"self.fill_missing_candles({ACC}, {TFN})"):
                     res.ok("R-CONSERVE", {"site": cc.where, "exit": "self.candles.extend(candles_)"})
                 else:
                     res.fail("R-CONSERVE", finding(prop, "R-CONSERVE", cc, fn, "a normal exit of collapse_candles does not put the rebuilt buckets back (self.candles.extend(candles_))", construct="collapse exit: " + " -> ".join(calls)))
@@ -476,7 +477,8 @@ def check_collapse(prop: str, res: Result, repo: Repo, want=("R-INTERVAL", "R-CO
                     if item[2]:
                         c = [x for x in path_calls(p) if call_target(x) == "self.fill_missing_candles"]
                         stores = [s for s in p if isinstance(s, ast.Assign) and ast.unparse(s.targets[0]) == ACC and c and s.value is c[0]]
-                        if c and stores and [ast.unparse(a) for a in c[0].args] == [ACC, TFN]:
+                        direct = c and any(call_target(x) == "self.candles.extend" and x.args and x.args[0] is c[0] for x in path_calls(p))
+                        if c and (stores or direct) and [ast.unparse(a) for a in c[0].args] == [ACC, TFN]:
                             res.ok("R-FILLPATH", {"site": cc.where, "when fill is on": "candles_ = self.fill_missing_candles(candles_, timeframe_) before extend"}, nontrivial="fillpath")
                         else:
                             res.fail("R-FILLPATH", finding(prop, "R-FILLPATH", cc, item[1], "with timeframe_fill set the rebuilt list must pass through fill_missing_candles(candles_, timeframe_) before it is stored"))
@@ -691,11 +693,21 @@ def check_fill(prop: str, res: Result, repo: Repo):
     st = State()
     st.env.update({"self": Obj("obj", "self"), lst: Obj("list", "L"), tfp: Num(A("sym", "TF")), cursor: Num(A("sym", "i")), P: Obj("obj", "prev")})
     tests = [n for n in ast.walk(fn) if isinstance(n, ast.If) and any(ctor[0] in list(ast.walk(b)) for b in n.body)]
-    if not tests:
+    # guard clauses: `if X: continue` before the statement that builds the candle contribute `not X`
+    guards = []
+    for blk in [n.body for n in ast.walk(fn) if isinstance(n, (ast.While, ast.For, ast.If))] + [fn.body]:
+        idx_ = next((k for k, st_ in enumerate(blk) if ctor[0] in list(ast.walk(st_))), None)
+        if idx_ is None:
+            continue
+        for st_ in blk[:idx_]:
+            if isinstance(st_, ast.If) and not st_.orelse and len(st_.body) == 1 and isinstance(st_.body[0], ast.Continue):
+                guards.append(ast.UnaryOp(op=ast.Not(), operand=st_.test))
+    if not tests and not guards:
         res.errors.append(f"{fm.where}: the fill candle is not created under a gap test the analysis can find: the fill rules cannot be applied to this shape")
     else:
-        # nested ifs: the candle is created when all of them hold
-        test_expr = tests[0].test if len(tests) == 1 else ast.BoolOp(op=ast.And(), values=[t.test for t in tests])
+        # nested ifs / guard clauses: the candle is created when all of them hold
+        parts_ = [t.test for t in tests] + guards
+        test_expr = parts_[0] if len(parts_) == 1 else ast.BoolOp(op=ast.And(), values=parts_)
         # single-definition locals used by the test (e.g. `expected = prev.timestamp + timeframe`) are replaced by their definition
         class _Al(ast.NodeTransformer):
             def visit_Name(self, node):
@@ -721,30 +733,87 @@ def check_fill(prop: str, res: Result, repo: Repo):
         if good and conds:
             res.ok(rule, {"site": fm.where, "gap test": "candles[i].timestamp != candles[i-1].timestamp + timeframe"}, nontrivial="fill:gap")
         else:
-            res.fail(rule, finding(prop, rule, fm, tests[0].test, "the gap test is not `next.timestamp != previous.timestamp + timeframe` on the full timestamps (e.g. a comparison of .seconds drops whole days)"))
-    # cursor discipline: starts at 1, +1 per iteration, ends at len(list); no state kept on self
-    starts = alias.get(cursor, set())
-    inits = [s for s in fn.body if isinstance(s, ast.Assign) and ast.unparse(s.targets[0]) == cursor]
-    if inits and ast.unparse(inits[0].value) == "1":
-        res.ok(rule, {"site": fm.where, "cursor": f"{cursor} = 1: every adjacent pair of the rebuilt list is examined"}, nontrivial="fill:cursor")
-    else:
-        res.fail(rule, finding(prop, rule, fm, inits[0] if inits else fn, "the fill scan must start at the first pair of the rebuilt list (cursor = 1); starting later skips gaps at the join with earlier candles", construct=f"fill cursor init {ast.unparse(inits[0].value) if inits else '?'}"))
+            res.fail(rule, finding(prop, rule, fm, tests[0].test if tests else fn, "the gap test is not `next.timestamp != previous.timestamp + timeframe` on the full timestamps (e.g. a comparison of .seconds drops whole days)"))
+    # cursor discipline, derived from the loop (whatever its spelling): the positions at which a pair (list[v-1], list[v]) is examined are
+    # v = 1, 2, ... while v < len(list)   (len taken afresh every time: an inserted candle becomes the next 'previous')
+    V, LEN, CUR = A("sym", "v"), A("sym", "len"), A("sym", "cursor")
+    inits = [s_ for s_ in fn.body if isinstance(s_, ast.Assign) and ast.unparse(s_.targets[0]) == cursor]
+    loops = [n for n in fn.body if isinstance(n, ast.While)]
     incs = [n for n in ast.walk(fn) if isinstance(n, ast.AugAssign) and ast.unparse(n.target) == cursor]
     incs += [n for n in ast.walk(fn) if isinstance(n, ast.Assign) and ast.unparse(n.targets[0]) == cursor and n not in inits]
+
     def _plus_one(n):
         if isinstance(n, ast.AugAssign):
             return isinstance(n.op, ast.Add) and ast.unparse(n.value) == "1"
         v = n.value
         return isinstance(v, ast.BinOp) and isinstance(v.op, ast.Add) and {ast.unparse(v.left), ast.unparse(v.right)} == {cursor, "1"}
-    if len(incs) == 1 and _plus_one(incs[0]):
-        res.ok(rule, {"site": fm.where, "cursor": "+= 1 per iteration (an inserted candle becomes the next 'previous')"})
+
+    def _lin(e):
+        """linear expression over the cursor and len(list)"""
+        if isinstance(e, ast.Constant) and isinstance(e.value, int):
+            return C(e.value)
+        if isinstance(e, ast.Name) and e.id == cursor:
+            return CUR
+        if isinstance(e, ast.Call) and call_name(e) == "len" and len(e.args) == 1 and ast.unparse(e.args[0]) == lst:
+            return LEN
+        if isinstance(e, ast.BinOp) and isinstance(e.op, (ast.Add, ast.Sub)):
+            l, r = _lin(e.left), _lin(e.right)
+            return None if l is None or r is None else (l + r if isinstance(e.op, ast.Add) else l - r)
+        return None
+
+    def _cmp(test):
+        ops = {ast.Lt: "<", ast.LtE: "<=", ast.Gt: ">", ast.GtE: ">="}
+        neg = False
+        while isinstance(test, ast.UnaryOp) and isinstance(test.op, ast.Not):
+            test, neg = test.operand, not neg
+        if isinstance(test, ast.Compare) and len(test.ops) == 1 and type(test.ops[0]) in ops:
+            l, r = _lin(test.left), _lin(test.comparators[0])
+            if l is not None and r is not None:
+                c = mk_cmp(ops[type(test.ops[0])], l, r)
+                return c_not(c) if neg else c
+        return None
+
+    derived = None
+    if len(inits) == 1 and isinstance(inits[0].value, ast.Constant) and isinstance(inits[0].value.value, int) and len(loops) == 1 and len(incs) == 1 and _plus_one(incs[0]):
+        loop = loops[0]
+        i0 = inits[0].value.value
+        body = list(loop.body)
+        # is the increment executed before the pair is read?  (position of the increment among the top-level statements of the loop body)
+        inc_top = next((k for k, st_ in enumerate(body) if incs[0] in list(ast.walk(st_))), None)
+        use_top = next((k for k, st_ in enumerate(body) if any(isinstance(n, ast.Subscript) and ast.unparse(n.value) == lst for n in ast.walk(st_))), None)
+        if inc_top is not None and use_top is not None and incs[0] in body:
+            before = inc_top < use_top
+            first = i0 + 1 if before else i0
+            always = isinstance(loop.test, ast.Constant) and loop.test.value is True
+            cont = None
+            if not always:
+                t = _cmp(loop.test)
+                if t is not None:
+                    # the test sees the cursor before (increment first) or at (increment last) the visited position
+                    cont = poly.subst(t, {CUR.atoms().pop() if False else ("sym", "cursor"): (V - ONE) if before else V})
+            else:
+                brk = [n for n in body if isinstance(n, ast.If) and len(n.body) == 1 and isinstance(n.body[0], ast.Break) and not n.orelse]
+                if len(brk) == 1 and not before and body.index(brk[0]) > inc_top:
+                    t = _cmp(brk[0].test)
+                    if t is not None:
+                        # after visiting v the cursor is v+1; the next position w = v+1 is visited iff not break(w)
+                        cont = poly.subst(c_not(t), {("sym", "cursor"): V})
+            if cont is not None:
+                derived = (first, cont)
+    want_cont = mk_cmp("<", V, LEN)
+    if derived is None:
+        res.errors.append(f"{fm.where}: cannot derive which positions the fill scan visits (cursor initialisation / single +1 step / loop test): the fill rules cannot be applied to this shape")
     else:
-        res.fail(rule, finding(prop, rule, fm, fn, "the fill cursor must advance by exactly one per iteration", construct="fill cursor increment"))
-    ends = [n for n in ast.walk(fn) if isinstance(n, ast.Compare) and len(n.ops) == 1 and {ast.unparse(n.left), ast.unparse(n.comparators[0])} == {cursor, f"len({lst})"}]
-    if ends:
-        res.ok(rule, {"site": fm.where, "end": norm_construct(ends[0])})
-    else:
-        res.fail(rule, finding(prop, rule, fm, fn, "the fill scan must run until the cursor reaches len(list)", construct="fill loop end"))
+        first, cont = derived
+        if first == 1:
+            res.ok(rule, {"site": fm.where, "cursor": "first examined pair is (list[0], list[1])"}, nontrivial="fill:cursor")
+        else:
+            res.fail(rule, finding(prop, rule, fm, inits[0], f"the fill scan starts at position {first}, not at the first pair of the rebuilt list: gaps before it are never filled", construct=f"fill cursor init {first}"))
+        res.ok(rule, {"site": fm.where, "cursor": "+1 per examined pair (an inserted candle becomes the next 'previous')"})
+        if cont == want_cont:
+            res.ok(rule, {"site": fm.where, "end": "pairs are examined while the position is < len(list), len taken afresh"})
+        else:
+            res.fail(rule, finding(prop, rule, fm, loops[0].test, f"the fill scan continues while [{show_cond(cont)}], not while the position is < len(list): the end of the list is not examined / over-run", construct="fill loop end"))
     # effects: only insert; no store on existing candles, no state on self
     for s_, t in attr_stores(fn):
         res.fail("R-EFFECT", finding(prop, "R-EFFECT", fm, s_, "fill_missing_candles writes an attribute: filling must only insert fresh candles and keep no state"))
